@@ -2,7 +2,7 @@
    computed counterexamples (the faithful model does NOT always satisfy the outlining hypotheses) and the
    non-vacuity examples. *)
 From Coq Require Import List NArith ZArith Bool Lia.
-From RopeVerif.C03 Require Import Flow Collector Dataflow FlowProofs LiveProofs OutlineProofs Witnesses.
+From RopeVerif.C03 Require Import Flow Collector Dataflow Current FlowProofs LiveProofs OutlineProofs Witnesses.
 Import ListNotations.
 
 (* whatever discipline the collector follows: when its args/returns satisfy the outlining hypotheses for this
@@ -46,32 +46,35 @@ Proof.
 Qed.
 
 (* ------------------------------------------------------------------ computed counterexamples *)
-Definition breaks (glob : bool) (params : list var) (lc : loc) (n : nat) (vec : list Z) : Prop :=
-  exists p', extract as_is glob params lc = Some p' /\ run n params vec p' <> run n params vec (orig lc).
+Definition breaks_with (sw : switches) (glob : bool) (params : list var) (lc : loc) (n : nat) (vec : list Z) : Prop :=
+  exists p', extract sw glob params lc = Some p' /\ run n params vec p' <> run n params vec (orig lc).
+Definition breaks := breaks_with as_is.
 
 Ltac by_computation := eexists; split; [vm_compute; reflexivity | vm_compute; discriminate].
 
+(* defects of the code as it was found (discipline as_is), fixed since by 25782e7, f6cf806, c0fa7ad, 99f0982:
+   kept as documentation, their replays live under corpus/C03 *)
 Lemma nested_conditional_refuted : breaks false [va; vb] w_nested 5 [0; 0]%Z.
 Proof. by_computation. Qed.
 Lemma postwritten_branch_refuted : breaks false [va] w_branch 5 [1]%Z.
 Proof. by_computation. Qed.
-Lemma maybe_written_read_refuted : breaks false [va; vb] w_readmaybe 5 [0; 1]%Z.
-Proof. by_computation. Qed.
 Lemma loop_depth_refuted : breaks false [va] w_loopdepth 20 [2]%Z.
-Proof. by_computation. Qed.
-Lemma loop_carried_refuted : breaks false [va] w_loopcarried 20 [2]%Z.
-Proof. by_computation. Qed.
-Lemma loop_prewritten_refuted : breaks false [va] w_loopprew 20 [2]%Z.
 Proof. by_computation. Qed.
 Lemma module_args_refuted : breaks true [] w_module 5 [].
 Proof. by_computation. Qed.
-Lemma arg_maybe_unbound_refuted : breaks false [va] w_argunbound 5 [0]%Z.
+
+(* defects of the current code (discipline Current.current) *)
+Lemma maybe_written_read_refuted : breaks_with current false [va; vb] w_readmaybe 5 [0; 1]%Z.
 Proof. by_computation. Qed.
-Lemma result_maybe_unbound_refuted : breaks false [va] w_retunbound 5 [0]%Z.
+Lemma loop_carried_refuted : breaks_with current false [va] w_loopcarried 20 [2]%Z.
+Proof. by_computation. Qed.
+Lemma loop_prewritten_refuted : breaks_with current false [va] w_loopprew 20 [2]%Z.
+Proof. by_computation. Qed.
+Lemma arg_maybe_unbound_refuted : breaks_with current false [va] w_argunbound 5 [0]%Z.
+Proof. by_computation. Qed.
+Lemma result_maybe_unbound_refuted : breaks_with current false [va] w_retunbound 5 [0]%Z.
 Proof. by_computation. Qed.
 
-(* with the corresponding discipline repaired the same located programs satisfy the outlining hypotheses,
-   hence (extract_preserves) are extracted correctly *)
 Definition repaired (sw : switches) (glob : bool) (params : list var) (lc : loc) : bool :=
   outline_ok lc params (args_rope sw glob params lc) (rets_rope sw glob params lc) glob.
 
@@ -79,6 +82,7 @@ Definition only (r b k m a g : bool) : switches :=
   {| sw_restore := r; sw_balanced := b; sw_killnest := k; sw_readmaybe := m; sw_loopall := a; sw_globalargs := g;
      sw_loopprew := false |}.
 
+(* each single repaired discipline satisfies the outlining hypotheses on the witness of its defect *)
 Lemma repairs_compute :
   repaired (only true false false false false false) false [va; vb] w_nested = true
   /\ repaired (only false false true false false false) false [va] w_branch = true
@@ -88,16 +92,27 @@ Lemma repairs_compute :
   /\ repaired (only false false false false false true) true [] w_module = true.
 Proof. vm_compute. repeat split; reflexivity. Qed.
 
+(* the current code satisfies the hypotheses on the four witnesses of the fixed defects; one more switch each
+   would do the same for the two repairable open defects *)
+Lemma current_compute :
+  repaired current false [va; vb] w_nested = true
+  /\ repaired current false [va] w_branch = true
+  /\ repaired current false [va] w_loopdepth = true
+  /\ repaired current true [] w_module = true
+  /\ repaired (sw_or current (only false false false true false false)) false [va; vb] w_readmaybe = true
+  /\ repaired (sw_or current (only false false false false true false)) false [va] w_loopcarried = true.
+Proof. vm_compute. repeat split; reflexivity. Qed.
+
 (* ------------------------------------------------------------------ non-vacuity *)
 Lemma ex_loop_ok :
-  repaired as_is false [va] ex_loop = true
-  /\ args_rope as_is false [va] ex_loop = [vx; vy] /\ rets_rope as_is false [va] ex_loop = [vy; vx]
+  repaired current false [va] ex_loop = true
+  /\ args_rope current false [va] ex_loop = [vx; vy] /\ rets_rope current false [va] ex_loop = [vy; vx]
   /\ run 20 [va] [3]%Z (orig ex_loop) = (Ret 3%Z, [3; 1; 0]%Z).
 Proof. vm_compute. repeat split; reflexivity. Qed.
 
 Lemma ex_tail_ok :
-  repaired as_is false [va; vb] ex_tail = true
-  /\ args_rope as_is false [va; vb] ex_tail = [vb; vx] /\ rets_rope as_is false [va; vb] ex_tail = []
+  repaired current false [va; vb] ex_tail = true
+  /\ args_rope current false [va; vb] ex_tail = [vb; vx] /\ rets_rope current false [va; vb] ex_tail = []
   /\ returns_last (region ex_tail) = true.
 Proof. vm_compute. repeat split; reflexivity. Qed.
 
